@@ -29,7 +29,7 @@ NMenu == << <<>>, <<"3">> >>
 HomeVal == <<"/","h">>
 
 \* Tokens and their source text
-Toks == {"A","SP","DQ","SQ","V","VD","VU","VL","AR","AO","BD","BB","BA","BQ","BR","TI","SL","OB","OA"}
+Toks == {"A","SP","DQ","SQ","V","VD","VU","VL","VE","AR","AO","BD","BB","BA","BQ","BR","TI","SL","OB","OA"}
 TokSrc(t) ==
   CASE t = "A"  -> <<"a">>
     [] t = "B"  -> <<"b">>            \* only produced by brace expansion
@@ -40,6 +40,7 @@ TokSrc(t) ==
     [] t = "VD" -> <<"$","{","v",":","-","d","}">>
     [] t = "VU" -> <<"$","{","v","-","u","}">>
     [] t = "VL" -> <<"$","{","#","v","}">>
+    [] t = "VE" -> <<"$","{","u","}">>              \* u is never set
     [] t = "AR" -> <<"$","(","(","1","+","n",")",")">>
     [] t = "AO" -> <<"$","(","(","n","|","|","0",")",")">>
     [] t = "BD" -> <<"\\","$">>
@@ -65,9 +66,10 @@ ExpText(t, e) ==
     [] t = "VD" -> IF e.v = <<>> THEN <<"d">> ELSE e.v
     [] t = "VU" -> IF e.v = <<>> THEN <<"u">> ELSE e.v     \* an empty value means unset
     [] t = "VL" -> Dec(Len(e.v))
+    [] t = "VE" -> <<>>
     [] t = "AR" -> Dec(1 + NVal(e))
     [] t = "AO" -> IF NVal(e) # 0 THEN <<"1">> ELSE <<"0">>   \* logical operators yield 0 or 1
-IsExp(t) == t \in {"V","VD","VU","VL","AR","AO"}
+IsExp(t) == t \in {"V","VD","VU","VL","VE","AR","AO"}
 
 -----------------------------------------------------------------------------
 (* Here-document mode *)
@@ -171,7 +173,7 @@ Init == toks = <<>> /\ phase = "s" /\ vI = 1 /\ nI = 1 /\ iI = 1
 \* After an unterminated ${ no token containing } is added, so that the opener stays unterminated
 \* (otherwise `${` `a` `~` `{a,b}` is bash's undocumented case-toggling ${a~pattern}, `${` `a` `{a,b}`
 \* a bad substitution, ...: parameter-expansion operators are C21's and C12's subject, not this one's).
-ClosesBrace(t) == t \in {"BR","V","VD","VU","VL"}
+ClosesBrace(t) == t \in {"BR","V","VD","VU","VL","VE"}
 AddTok == /\ phase = "s" /\ Len(toks) < MaxTok
           /\ \E t \in TokSet : /\ (ClosesBrace(t) => ~HasTok(toks, {"OB"}))
                                /\ toks' = Append(toks, t)
@@ -190,7 +192,7 @@ Env == [v |-> VMenu[vI], n |-> NMenu[nI], ifs |-> IMenu[iI]]
 -----------------------------------------------------------------------------
 (* Laws *)
 \* L1: text without expansions and backslashes is here-document text unchanged
-L_DocLiteral == (IsVec /\ ~HasTok(toks, {"V","VD","VU","VL","AR","AO","BD","BB","OB","OA"})) =>
+L_DocLiteral == (IsVec /\ ~HasTok(toks, {"V","VD","VU","VL","VE","AR","AO","BD","BB","OB","OA"})) =>
                   Doc(toks, Env) = [err |-> FALSE, out |-> Src(toks)]
 \* L2: the whole string inside double quotes, as an argument, is the here-document text
 \*     (when the string has no double quote of its own, quoted or escaped)
@@ -214,6 +216,6 @@ Emit ==
   PrintT(<<"VEC", ToJson([
      toks |-> toks, src |-> Src(toks), v |-> e.v, n |-> e.n, ifs |-> e.ifs, home |-> HomeVal,
      doc |-> d, arg |-> a, argdqe |-> ArgD(toks, e, TRUE),
-     nontrivial |-> (HasTok(toks, {"V","VD","VU","VL","AR","AO","DQ","SQ","BD","BB","BA","BQ","BR","TI"}) /\ ~(d.err /\ a.err)) ])>>)
+     nontrivial |-> (HasTok(toks, {"V","VD","VU","VL","VE","AR","AO","DQ","SQ","BD","BB","BA","BQ","BR","TI"}) /\ ~(d.err /\ a.err)) ])>>)
 EmitInv == Emit
 =============================================================================
